@@ -11,7 +11,7 @@
 (* held}>> (vacuity control; counted by the orchestrator).  The            *)
 (* POSTCONDITION demands that the whole trace was consumed.                *)
 (***************************************************************************)
-EXTENDS Quantities
+EXTENDS Rates
 
 Rec == Rec0
 
@@ -29,6 +29,12 @@ Clauses(e) ==
       [] e.ev = "Derived" -> DerivedClauses(e)
       [] e.ev = "Fit"     -> FitClauses(e)
       [] e.ev = "Lookup"  -> LookupClauses(e)
+      [] e.ev = "Rate"    -> RateClauses(e)
+      [] e.ev = "Table"   -> TableClauses(e)
+      [] e.ev = "Format"  -> FormatClauses(e)
+      [] e.ev = "FormatUnit" -> FormatUnitClauses(e)
+      [] e.ev = "Serde"   -> SerdeClauses(e)
+      [] e.ev = "SI"      -> SIClauses(e)
       [] OTHER -> <<Cl("T.unknown_event", TRUE, FALSE)>>
 
 TraceInit == l = 1
